@@ -21,6 +21,8 @@ type execLog struct {
 	evs  []Ev
 	ctx  map[int]CtxDef
 	gcTO int // host GC waits that timed out (Go finalisers did not get to run)
+	// the program's keep table and resurrect table (emptied after Close, see Execute)
+	keep, res *rt.Table
 }
 
 func (l *execLog) add(e Ev) {
@@ -132,6 +134,11 @@ func install(s *gl.Sess, l *execLog) {
 			return c.Next(), nil
 		})
 	}
+	reg("regkr", 2, func(t *rt.Thread, c *rt.GoCont) (rt.Cont, error) {
+		l.keep, _ = c.Arg(0).TryTable()
+		l.res, _ = c.Arg(1).TryTable()
+		return c.Next(), nil
+	})
 	simple("keepev", "keep")
 	simple("dropev", "drop")
 	simple("resev", "res")
@@ -406,5 +413,19 @@ func Execute(h *History) (res Result) {
 	}()
 	l.add(Ev{K: "closed"})
 	finish()
+	// Housekeeping of the monitor's own process, after the history is over: the
+	// default pool leaves Go finalisers on the values it managed, and a value
+	// that is still in the keep table reaches itself (value -> metatable ->
+	// __gc closure -> keep table -> value), a cycle through an object with a
+	// finaliser, which Go never frees - the whole runtime would stay behind
+	// for every history and each forced collection would get slower.
+	for _, tb := range []*rt.Table{l.keep, l.res} {
+		if tb == nil {
+			continue
+		}
+		for id := 1; id <= h.NObj; id++ {
+			tb.Set(rt.IntValue(int64(id)), rt.NilValue)
+		}
+	}
 	return
 }
